@@ -7,10 +7,10 @@
 #define MK_ITER MK_GEN; ITER *it = malloc(sizeof(ITER)); __CPROVER_assume(it != 0); it->_gen = g
 #define SENT __CPROVER_assert(0, "SENTINEL reachable")
 #ifdef CV_HAS_pt_yield_value_ref
-void h_yield_value_ref(void) { PT *p; cv_i32 *x; pt_yield_value_ref(p, x); SENT; }
+void h_yield_value_ref(void) { PT *p; VAL *x; pt_yield_value_ref(p, x); SENT; }
 #endif
 #ifdef CV_HAS_pt_yield_value_rref
-void h_yield_value_rref(void) { PT *p; cv_i32 *x; pt_yield_value_rref(p, x); SENT; }
+void h_yield_value_rref(void) { PT *p; VAL *x; pt_yield_value_rref(p, x); SENT; }
 #endif
 #ifdef CV_HAS_pt_yield_value_null
 void h_yield_value_null(void) { PT *p; pt_yield_value_null(p, 0); SENT; }
@@ -38,7 +38,7 @@ void h_return_void(void) { PT *p; pt_return_void(p); SENT; }
 void h_unhandled_exception(void) { PT *p; pt_unhandled_exception(p); SENT; }
 #endif
 #ifdef CV_HAS_pt_set_arg
-void h_set_arg(void) { PT *p; cv_i32 *a; pt_set_arg(p, a); SENT; }
+void h_set_arg(void) { PT *p; ARGT *a; pt_set_arg(p, a); SENT; }
 #endif
 #ifdef CV_HAS_pt_next_async
 void h_next_async(void) { MK_FRAME; AWT *c = malloc(sizeof(AWT)); __CPROVER_assume(c != 0); pt_next_async(gh_pt, c);
@@ -64,8 +64,14 @@ void h_next_future(void) { FUT *r; PT *p; pt_next_future(r, p);
 #ifdef CV_HAS_pt_unblock_sync
 void h_unblock_sync(void) { PT *p; pt_unblock_sync(p); SENT; }
 #endif
+/* value type c13_mv: the item the record points to is a real object (allocated here, pointer ASSIGNED) so that the contract can look into it */
+#define MK_VAL gh_val = malloc(sizeof(VAL)); __CPROVER_assume(gh_val != 0); if (nondet_bool()) gh_pt->_ret = gh_val; else gh_pt->_ret = 0
 #ifdef CV_HAS_pt_unblock_future
+#ifdef CV_VAL_MV
+void h_unblock_future(void) { SP *r; MK_FRAME; MK_VAL; PT *p = gh_pt; pt_unblock_future(r, p);
+#else
 void h_unblock_future(void) { SP *r; PT *p; pt_unblock_future(r, p);
+#endif
   if (gh_pc_kind == PC_DROP) __CPROVER_assert(0, "SENTINEL reachable: end -> drop"); else if (gh_pc_kind == PC_EXC) __CPROVER_assert(0, "SENTINEL reachable: exception"); else __CPROVER_assert(0, "SENTINEL reachable: value"); }
 #endif
 #ifdef CV_HAS_pt_resume_fn_sync
@@ -105,19 +111,23 @@ void h_na_subscribe(void) { MK_NAWT; AWT *a = malloc(sizeof(AWT)); __CPROVER_ass
 #endif
 #ifdef CV_HAS_gen_next
 #ifdef GEN_ARG
-void h_gen_next(void) { MK_GEN; NAWT *r; cv_i32 *a; gen_next(r, g, a); SENT; }
+void h_gen_next(void) { MK_GEN; NAWT *r; ARGT *a; gen_next(r, g, a); SENT; }
 #else
 void h_gen_next(void) { MK_GEN; NAWT *r; gen_next(r, g); SENT; }
 #endif
 #endif
 #ifdef CV_HAS_gen_value
-void h_gen_value(void) { MK_GEN; cv_i8 *eo = malloc(32); __CPROVER_assume(eo != 0); if (nondet_bool()) EXC_OBJ(gh_pt->_exp) = eo + 16; else EXC_OBJ(gh_pt->_exp) = 0;
+void h_gen_value(void) { MK_GEN;
+#ifdef CV_VAL_MV
+  MK_VAL;
+#endif
+  cv_i8 *eo = malloc(32); __CPROVER_assume(eo != 0); if (nondet_bool()) EXC_OBJ(gh_pt->_exp) = eo + 16; else EXC_OBJ(gh_pt->_exp) = 0;
   gen_value(g);
   if (!cv_exc_pending) __CPROVER_assert(0, "SENTINEL reachable: value"); else if (EXC_OBJ(gh_pt->_exp) != 0) __CPROVER_assert(0, "SENTINEL reachable: stored exception rethrown"); else __CPROVER_assert(0, "SENTINEL reachable: value_not_ready"); }
 #endif
 #ifdef CV_HAS_gen_call
 #ifdef GEN_ARG
-void h_gen_call(void) { MK_GEN; FUT *r; cv_i32 *a; gen_call(r, g, a); SENT; }
+void h_gen_call(void) { MK_GEN; FUT *r; ARGT *a; gen_call(r, g, a); SENT; }
 #else
 void h_gen_call(void) { MK_GEN; FUT *r; gen_call(r, g); SENT; }
 #endif
@@ -158,6 +168,14 @@ void h_it_deref(void) { MK_ITER; it_deref(it); if (cv_exc_pending) __CPROVER_ass
 #ifdef CV_HAS_it_arrow
 void h_it_arrow(void) { MK_ITER; it_arrow(it); if (cv_exc_pending) __CPROVER_assert(0, "SENTINEL reachable: exception"); else __CPROVER_assert(0, "SENTINEL reachable: value"); }
 #endif
-#ifdef CV_HAS_it_postinc
+#if defined(CV_HAS_it_postinc) && defined(CV_VAL_MV)
+void h_it_postinc(void) { MK_ITER; gh_val = malloc(sizeof(VAL)); __CPROVER_assume(gh_val != 0); gh_gv_result = gh_val; ISTORE *r; it_postinc(r, it, 0); SENT; }
+#elif defined(CV_HAS_it_postinc)
 void h_it_postinc(void) { MK_ITER; cv_i32 *v = malloc(sizeof(cv_i32)); __CPROVER_assume(v != 0); gh_gv_result = v; it_postinc(it, 0); SENT; }
+#endif
+#ifdef CV_HAS_fut_set_val
+void h_fut_set_val(void) { FUT *f; VAL *v; fut_set_val(f, v); SENT; }
+#endif
+#ifdef CV_HAS_gen_get_id
+void h_gen_get_id(void) { MK_GEN; gen_get_id(g); SENT; }
 #endif
